@@ -272,23 +272,43 @@ func (p *amPairs) Add(con parser.Annotation, inter AnnotationMapper) {
 
 func mapAnnotations(ctx context.Context, as parser.Annotations, scope AnnoScope, desc interface{}, opt Options) (ret []annoPair, left []parser.Annotation, next []parser.Annotation, err error) {
 	con := make(amPairs, 0, len(as))
-	cur := make([]parser.Annotation, 0, len(as))
+	// the annotations in their listed order: an unmapped annotation stands for itself (mapper == -1), the
+	// first annotation of a mapper marks where that mapper's output goes - the order of annotations is
+	// meaningful (e.g. the first http-mapping source that has a value wins)
+	type slot struct {
+		ann    parser.Annotation
+		mapper int
+	}
+	slots := make([]slot, 0, len(as))
 	// try find mapper
 	for _, a := range as {
 		if mapper := FindAnnotationMapper(a.Key, scope); mapper != nil {
+			n := len(con)
 			con.Add(*a, mapper)
+			if len(con) > n {
+				slots = append(slots, slot{mapper: n})
+			}
 		} else {
-			// no mapper found, just append it to the result
-			cur = append(cur, *a)
+			// no mapper found, it goes to the result as it is
+			slots = append(slots, slot{ann: *a, mapper: -1})
 		}
 	}
 	// process all the annotations under the mapper
-	for _, a := range con {
+	mapped := make([][]parser.Annotation, len(con))
+	for i, a := range con {
 		if c, n, err := a.inter.Map(ctx, a.cont, desc, opt); err != nil {
 			return nil, nil, nil, err
 		} else {
-			cur = append(cur, c...)
+			mapped[i] = c
 			next = n
+		}
+	}
+	cur := make([]parser.Annotation, 0, len(as))
+	for _, s := range slots {
+		if s.mapper < 0 {
+			cur = append(cur, s.ann)
+		} else {
+			cur = append(cur, mapped[s.mapper]...)
 		}
 	}
 	m, left := mergeAnnotations(cur, scope)
